@@ -59,6 +59,7 @@ class Knobs:
         self.p_scen = 0.0
         self.p_prec = 0.0
         self.p_group = 0.25
+        self.p_group_cal = 0.5       # a group carries hours / shift / zone / leave that its members inherit
         self.p_group_alloc = 0.08
         self.p_twin = 0.2
         self.p_month = 0.07
@@ -171,6 +172,19 @@ def gen_project(rng, k=None):
         group = {"id": "grp", "children": []}
         if pick(rng, k.p_limits):
             group["limits"] = gen_limits(rng, G, group=True)
+        if pick(rng, k.p_group_cal):
+            # a calendar declared on the group: members without one of their own inherit it
+            if p.get("shifts") and pick(rng, 0.5):
+                group["shift"] = "sh1"
+            else:
+                wh = gen_hours(rng, G, k.aligned_only)
+                if wh:
+                    group["wh"] = wh
+            if pick(rng, k.p_tz):
+                group["tz"] = rng.choice(ZONES)
+            if pick(rng, k.p_leave):
+                a = day()
+                group["leaves"] = [["annual", a, None if pick(rng, 0.5) else a + rng.choice([1, 2]) * D]]
         res.append(group)
     for i in range(nres):
         r = {"id": f"r{i}"}
